@@ -52,6 +52,7 @@ type SPkg struct {
 	Defs    []*SDef
 	Files   int
 	RawTail string // raw text appended to file 0 (mutants)
+	RawFile string // complete raw text of file 0 (token-level mutants)
 	NoOpt   bool
 }
 
@@ -120,6 +121,8 @@ func (d *SDef) text() string {
 		for _, f := range d.Fields {
 			fmt.Fprintf(&sb, "    %s %s;\n", f.Name, f.typeText())
 		}
+	case "rawheader":
+		return "options (\n    go_package=\"x/y\"\n    go_package=\"x/z\"\n)\n"
 	case "service", "subservice":
 		fmt.Fprintf(&sb, "%s %s {\n", d.Type, d.Name)
 		for _, m := range d.Methods {
@@ -139,6 +142,9 @@ func (p *SPkg) write(srcRoot, modPath string) error {
 	n := p.Files
 	if n == 0 {
 		n = 1
+	}
+	if p.RawFile != "" {
+		return os.WriteFile(filepath.Join(dir, "f0.spec"), []byte(p.RawFile), 0o644)
 	}
 	for fi := 0; fi < n; fi++ {
 		var sb strings.Builder
@@ -177,6 +183,9 @@ func (p *SPkg) write(srcRoot, modPath string) error {
 
 func (p *SPkg) source() string {
 	var sb strings.Builder
+	if p.RawFile != "" {
+		return strings.Join(strings.Fields(p.RawFile), " ")
+	}
 	for _, im := range p.Imports {
 		id := im.ID
 		if id == "" && im.Pkg != nil {
